@@ -434,6 +434,28 @@ func genC18(rec *lib.Rec, r *lib.Rng, thorough bool) {
 			rec.Op("S", "read canon "+segsStr(Encode(r, v, 1, 0, 0, false)), true)
 			rec.Count("big-element")
 		}
+		// structs and list elements with pointer sections around 2^15 and up to the 16-bit maximum, one non-null
+		// pointer near the front (everything behind it is truncated): the canonical pointer count is decided by a
+		// backwards scan over the whole section
+		widePtrs := func(n, at int, inList bool) *Val {
+			s := &Val{Kind: vStruct, InList: inList, Data: []byte{byte(1 + r.Intn(255)), 0, 0, 0, 0, 0, 0, 0}, Ptrs: make([]*Val, n)}
+			for i := range s.Ptrs {
+				s.Ptrs[i] = &Val{Kind: vNull}
+			}
+			s.Ptrs[at] = &Val{Kind: vStruct, Data: []byte{byte(1 + r.Intn(255)), 0, 0, 0, 0, 0, 0, 0}}
+			return s
+		}
+		for _, n := range []int{32767, 32768, 32769, 40000, 65535} {
+			rec.Op("S", "read canon "+segsStr(Encode(r, widePtrs(n, r.Intn(2), false), 1, 0, 0, false)), true)
+			rec.Count("wide-ptr-struct")
+		}
+		for _, n := range []int{32768, 32769, 50000} {
+			l := &Val{Kind: vList, EK: 7, N: 2, DS: 1, PC: n}
+			l.Elems = []*Val{widePtrs(n, 0, true), widePtrs(n, 1, true)}
+			v := &Val{Kind: vStruct, Data: []byte{1, 0, 0, 0, 0, 0, 0, 0}, Ptrs: []*Val{l}}
+			rec.Op("S", "read canon "+segsStr(Encode(r, v, 1, 0, 0, false)), true)
+			rec.Count("wide-ptr-element")
+		}
 	}
 	for i := 0; i < n; i++ {
 		b := 3 + r.Intn(30)
